@@ -7,9 +7,9 @@
    `key = args, frozenset(kwargs.items())` and the statement
    `_cache = cache if cache is not None else {}`), so these theorems are about
    what the source says now.  Values are Python-equality classes (Keys.v). *)
-From Coq Require Import List Bool Permutation.
+From Coq Require Import List Bool Arith Lia Permutation.
 Import ListNotations.
-Require Import Aiuti.Keys Aiuti.KeysInv Aiuti.Case_C14 Aiuti.KeysMon Aiuti.KeysMonN AiutiGen.T_KeyExpr.
+Require Import Aiuti.Keys Aiuti.KeysInv Aiuti.Case_C14 Aiuti.KeysMon Aiuti.KeysMonN Aiuti.KeysSound AiutiGen.T_KeyExpr.
 
 (* The translated key expression has the accepted shape (decided by
    computation on the generated, finite expression). *)
@@ -132,6 +132,132 @@ Theorem monitor_n_accepts_model : forall kind (evs : list ev),
 Proof. intros kind. exact (mon_n_accepts_model key_expr key_expr_is_good kind). Qed.
 Print Assumptions monitor_n_accepts_model.
 
+(* ---- what an ACCEPTED implementation trace satisfies (no model involved) ----
+
+   The next theorems are about an arbitrary event list [evs] and an arbitrary
+   observation list [observed] — e.g. the ones recorded from the real code —
+   and about the monitor [Case_C14.ok] only; neither the model nor the key
+   expression of the source occurs in them.  Observation of event i =
+   (number of invocations of the wrapped function, tag of the returned value,
+   tags of the values in the caller's mapping afterwards); the tag of a value
+   is the index of the event whose invocation produced it.  Vocabulary
+   (KeysSound.v; unfolded by the Example [vocabulary] below):
+     sig_equiv s' s        positional arguments equal in order, keyword
+                           (name, value) pairs equal as sets
+     computed_for evs i t s   t < i and event t is a call whose arguments are
+                           sig_equiv to s   ("tag t belongs to an earlier call
+                           with the same arguments")
+     held_before k pf observed i   the tags the caller's mapping held just
+                           before event i (its initial content for i = 0,
+                           else the content observed after event i-1)
+     same_tags a b         a and b contain the same tags and have equal length
+     without v l           l minus the tag v
+     invoked observed t    event t invoked the wrapped function once
+
+   monitor_sound.  If the monitor accepts, then there is one observation per
+   event and
+   * every call i with arguments s invoked the function once and got its own
+     value (tag i), or did not invoke it and got a value computed by an EARLIER
+     call with the SAME arguments — never one computed for other arguments;
+   * decorator's own dict (not observable, content reported as []): the call
+     is served from the cache iff some earlier call had the same arguments, and
+     the value served was really computed (by the call it names);
+   * caller-supplied mapping: the call is served from the cache iff that
+     mapping held, before the call, a value of an earlier call with the same
+     arguments, and the value served is one the mapping held (the mapping is
+     the store); a served call leaves the mapping's content as it was; a
+     computing call adds nothing but its own value, and the mapping then holds
+     exactly the old values plus the new one (unbounded) / at most n values,
+     min(n, old+1) of them, the new one among them when n >= 1 (lru.LRU(n));
+   * an eviction performs no invocation and removes exactly the evicted value. *)
+Theorem monitor_sound : forall kind pf (evs : list ev) (observed : list obs),
+  Case_C14.ok (C14 kind pf evs observed) = true ->
+  length observed = length evs /\
+  (forall i s ninv r cont,
+     nth_error evs i = Some (Call s) -> nth_error observed i = Some (ninv, r, cont) ->
+     ((ninv = 1 /\ r = i) \/ (ninv = 0 /\ computed_for evs i r s)) /\
+     match kind with
+     | KDefault =>
+         cont = [] /\
+         (ninv = 0 <-> exists j, computed_for evs i j s) /\
+         (ninv = 0 -> invoked observed r)
+     | KUser cap =>
+         let B := held_before kind pf observed i in
+         (ninv = 0 <-> exists t, In t B /\ computed_for evs i t s) /\
+         (ninv = 0 -> In r B /\ same_tags cont B) /\
+         (ninv = 1 -> incl cont (i :: B) /\
+                      match cap with
+                      | None => same_tags cont (i :: B)
+                      | Some n => (n = 0 \/ In i cont) /\ length cont = Nat.min n (S (length B))
+                      end)
+     end) /\
+  (forall i v ninv r cont,
+     nth_error evs i = Some (Evict v) -> nth_error observed i = Some (ninv, r, cont) ->
+     ninv = 0 /\
+     match kind with
+     | KDefault => cont = []
+     | KUser _ => same_tags cont (without v (held_before kind pf observed i))
+     end).
+Proof. exact ok_sound. Qed.
+Print Assumptions monitor_sound.
+
+(* The converse: the monitor rejects nothing that satisfies that statement.
+   [trace_spec kind pf evs observed] is, by definition, the conclusion of
+   monitor_sound (the proof of monitor_sound is [exact ok_sound] with
+   ok_sound : ok (...) = true -> trace_spec ..., so Coq has checked that the
+   text above is what trace_spec unfolds to).  Together: ok = true <-> statement. *)
+Theorem monitor_sound_converse : forall kind pf (evs : list ev) (observed : list obs),
+  trace_spec kind pf evs observed -> Case_C14.ok (C14 kind pf evs observed) = true.
+Proof. exact ok_complete. Qed.
+Print Assumptions monitor_sound_converse.
+
+(* Eviction => exactly one recomputation, for an accepted trace, from the
+   observations alone.  Caller-supplied mapping; event i evicts the value
+   tagged v, which the mapping held and which call v had computed for the
+   arguments s; j is the next call with those arguments (calls in between have
+   other arguments; further evictions may occur).  Then call j invokes the
+   function exactly once and gets its own value, and (capacity not 0) a call
+   with the same arguments right after j invokes nothing and gets j's value.
+   Excluded, as in monitor_accepts_model: more than 99 events against a
+   pre-populated mapping (tag 99 is the foreign entry). *)
+Theorem monitor_sound_evict : forall cap pf (evs : list ev) (observed : list obs),
+  Case_C14.ok (C14 (KUser cap) pf evs observed) = true ->
+  (pf = true -> length evs <= prefill_tag) ->
+  forall i v s0 j s,
+    nth_error evs i = Some (Evict v) ->
+    In v (held_before (KUser cap) pf observed i) ->
+    nth_error evs v = Some (Call s0) -> sig_equiv s0 s ->
+    i < j -> nth_error evs j = Some (Call s) ->
+    (forall k s', i < k < j -> nth_error evs k = Some (Call s') -> ~ sig_equiv s' s) ->
+    exists cont, nth_error observed j = Some (1, j, cont) /\
+      (cap <> Some 0 -> forall s2, nth_error evs (S j) = Some (Call s2) -> sig_equiv s s2 ->
+         exists cont2, nth_error observed (S j) = Some (0, j, cont2)).
+Proof. exact ok_sound_evict. Qed.
+Print Assumptions monitor_sound_evict.
+
+(* The second monitor (identity-less results; retaining store, calls only):
+   if it accepts, there is one count per call, every count is 0 or 1, and call
+   i did not invoke the function exactly when an earlier call had the same
+   arguments.  (For other stores / histories with evictions C14N cases are not
+   judged: ok is true and nontrivial is false.) *)
+Theorem monitor_n_sound : forall kind (evs : list ev) (ninvs : list nat),
+  Case_C14.ok (C14N kind evs ninvs) = true ->
+  retaining kind = true -> forallb is_call evs = true ->
+  length ninvs = length evs /\
+  forall i s n, nth_error evs i = Some (Call s) -> nth_error ninvs i = Some n ->
+    (n = 0 \/ n = 1) /\ (n = 0 <-> exists j, computed_for evs i j s).
+Proof. exact ok_n_sound. Qed.
+Print Assumptions monitor_n_sound.
+
+(* and it rejects nothing that satisfies that statement *)
+Theorem monitor_n_sound_converse : forall kind (evs : list ev) (ninvs : list nat),
+  (length ninvs = length evs /\
+   forall i s n, nth_error evs i = Some (Call s) -> nth_error ninvs i = Some n ->
+     (n = 0 \/ n = 1) /\ (n = 0 <-> exists j, computed_for evs i j s)) ->
+  Case_C14.ok (C14N kind evs ninvs) = true.
+Proof. exact ok_n_complete. Qed.
+Print Assumptions monitor_n_sound_converse.
+
 (* ---- non-vacuity --------------------------------------------------------- *)
 
 (* f(1, x='a', y=(1,2)) and f(1.0, y=(1,2), x='a') have equal keys;
@@ -165,3 +291,68 @@ Example retaining_example :
 Proof.
   repeat split. intros v [H|[H|[]]]; discriminate.
 Qed.
+
+(* the vocabulary of monitor_sound, unfolded *)
+Example vocabulary : forall kind pf (evs : list ev) (observed : list obs) i t s a b v l o,
+  (computed_for evs i t s <-> t < i /\ exists s', nth_error evs t = Some (Call s') /\ sig_equiv s' s) /\
+  (sig_equiv s o <-> pos s = pos o /\ forall n c, In (n, c) (kw s) <-> In (n, c) (kw o)) /\
+  held_before kind pf observed 0 = match kind with KDefault => [] | KUser _ => if pf then [prefill_tag] else [] end /\
+  held_before kind pf observed (S i) = match nth_error observed i with Some (_, _, c) => c | None => [] end /\
+  (same_tags a b <-> incl a b /\ incl b a /\ length a = length b) /\
+  (In t (without v l) <-> In t l /\ t <> v) /\
+  (invoked observed t <-> exists r c, nth_error observed t = Some (1, r, c)).
+Proof.
+  intros. split; [apply iff_refl|]. split; [apply iff_refl|].
+  split; [destruct kind; [reflexivity|]; destruct pf; reflexivity|].
+  split; [cbn [held_before]; destruct (nth_error observed i) as [[[? ?] ?]|]; reflexivity|].
+  split; [apply iff_refl|]. split; [|apply iff_refl].
+  unfold without. rewrite filter_In. split; intros [H1 H2]; (split; [assumption|]).
+  - intros ->. rewrite Nat.eqb_refl in H2. discriminate.
+  - destruct (Nat.eqb t v) eqn:E; [|reflexivity]. apply Nat.eqb_eq in E. contradiction.
+Qed.
+
+(* the monitor accepts the LRU(2) run of evict_example (with its eviction and
+   recomputation) and rejects each of these single deviations from it:
+   (a) the last call, equal to the one before, computes again;
+   (b) f(1, x=2) after the eviction is served the stale value 1;
+   (c) f(1, x=2) is served the value computed for f(0);
+   (d) the recomputed value is not put into the caller's mapping;
+   (e) a value that nobody put there appears in the caller's mapping;
+   (f) the eviction removes the other entry as well. *)
+Example monitor_accepts_rejects :
+  let a := mksig [0] [] in let b := mksig [1] [(0, 2)] in
+  let evs := [Call a; Call b; Call a; Evict 1; Call b; Call b] in
+  let k := KUser (Some 2) in
+  Case_C14.ok (C14 k false evs [(1, 0, [0]); (1, 1, [1; 0]); (0, 0, [0; 1]); (0, 0, [0]); (1, 4, [4; 0]); (0, 4, [4; 0])]) = true /\
+  Case_C14.ok (C14 k false evs [(1, 0, [0]); (1, 1, [1; 0]); (0, 0, [0; 1]); (0, 0, [0]); (1, 4, [4; 0]); (1, 5, [5; 0])]) = false /\
+  Case_C14.ok (C14 k false evs [(1, 0, [0]); (1, 1, [1; 0]); (0, 0, [0; 1]); (0, 0, [0]); (0, 1, [0]); (0, 1, [0])]) = false /\
+  Case_C14.ok (C14 k false evs [(1, 0, [0]); (1, 1, [1; 0]); (0, 0, [0; 1]); (0, 0, [0]); (0, 0, [0]); (0, 0, [0])]) = false /\
+  Case_C14.ok (C14 k false evs [(1, 0, [0]); (1, 1, [1; 0]); (0, 0, [0; 1]); (0, 0, [0]); (1, 4, [0]); (1, 5, [0])]) = false /\
+  Case_C14.ok (C14 k false evs [(1, 0, [0]); (1, 1, [1; 0]); (0, 0, [0; 1]); (0, 0, [0]); (1, 4, [4; 7]); (0, 4, [4; 7])]) = false /\
+  Case_C14.ok (C14 k false evs [(1, 0, [0]); (1, 1, [1; 0]); (0, 0, [0; 1]); (0, 0, []); (1, 4, [4]); (0, 4, [4])]) = false.
+Proof. vm_compute. repeat split. Qed.
+
+(* the hypotheses of monitor_sound_evict are satisfiable: in that accepted run
+   event 3 evicts value 1, which the mapping held and which call 1 computed
+   for f(1, x=2); the next call with those arguments is event 4 *)
+Example monitor_sound_evict_nonvacuous :
+  let a := mksig [0] [] in let b := mksig [1] [(0, 2)] in
+  let evs := [Call a; Call b; Call a; Evict 1; Call b; Call b] in
+  let observed := [(1, 0, [0]); (1, 1, [1; 0]); (0, 0, [0; 1]); (0, 0, [0]); (1, 4, [4; 0]); (0, 4, [4; 0])] in
+  nth_error evs 3 = Some (Evict 1) /\ In 1 (held_before (KUser (Some 2)) false observed 3) /\
+  nth_error evs 1 = Some (Call b) /\ sig_equiv b b /\ nth_error evs 4 = Some (Call b) /\
+  (forall k s', 3 < k < 4 -> nth_error evs k = Some (Call s') -> ~ sig_equiv s' b) /\
+  nth_error observed 4 = Some (1, 4, [4; 0]) /\ nth_error observed 5 = Some (0, 4, [4; 0]).
+Proof.
+  cbv zeta. split; [reflexivity|]. split; [simpl; auto|]. split; [reflexivity|].
+  split; [apply sig_equiv_refl|]. split; [reflexivity|]. split; [intros k s' Hk; lia|].
+  split; reflexivity.
+Qed.
+
+(* a trace of the decorator's own dict in which a call with different arguments
+   (positional 0 vs keyword x=0) is served the other call's value is rejected,
+   the correct one accepted; for mon_n see monitor_n_rejects *)
+Example monitor_rejects_foreign_value :
+  Case_C14.ok (C14 KDefault false [Call (mksig [0] []); Call (mksig [] [(0, 0)])] [(1, 0, []); (0, 0, [])]) = false /\
+  Case_C14.ok (C14 KDefault false [Call (mksig [0] []); Call (mksig [] [(0, 0)])] [(1, 0, []); (1, 1, [])]) = true.
+Proof. vm_compute. split; reflexivity. Qed.
